@@ -795,7 +795,11 @@ class PEval:
             if ty_to == ty_from:
                 return deref(args[0])
             raw_from = self.lib.ty_str(node["args"][0]["t"])
-            for tf in (ty_from, raw_from, "&" + ty_from, "&'static " + ty_from):
+            v0 = deref(args[0])
+            dyn = [v0.adt] if isinstance(v0, (Struct, Enum)) and not v0.adt.startswith("#") else []
+            if dyn and dyn[0] == ty_to:
+                return v0
+            for tf in [ty_from, raw_from, "&" + ty_from, "&'static " + ty_from] + dyn:
                 cand = self.lib.fn("<%s as core::convert::From<%s>>::from" % (ty_to, tf))
                 if cand is not None and thir.body_of(cand):
                     return self.call_fn(cand, args, depth + 1)
@@ -1224,6 +1228,13 @@ class PEval:
                 return sum(a0)
             if fname in ("max", "min") and len(args) == 1 and a0 and all(isinstance(x, int) and not isinstance(x, bool) for x in a0):
                 return some(max(a0) if fname == "max" else min(a0))
+            if fname == "replace" and len(args) == 3 and all(isinstance(x, list) and all(isinstance(y, int) for y in x) for x in args) and args[1]:
+                # bstr's ByteSlice::replace on byte strings
+                data, old_, new_ = bytes(args[0]), bytes(args[1]), bytes(args[2])
+                return list(data.replace(old_, new_))
+            if fname in ("find", "contains_str") and len(args) == 2 and isinstance(args[1], list) and all(isinstance(y, int) for y in a0 + args[1]) and "bstr" in path:
+                i = bytes(a0).find(bytes(args[1]))
+                return (some(i) if i >= 0 else NONE) if fname == "find" else i >= 0
             if fname in ("first", "next", "first_mut"):
                 return some(a0[0]) if a0 else NONE
             if fname in ("last", "last_mut"):
@@ -1511,6 +1522,19 @@ class PEval:
             if tgt == "alloc::string::String" and all(isinstance(x, (int, str)) and not isinstance(x, bool) for x in seq):
                 return "".join(chr(x) if isinstance(x, int) else x for x in seq)
             return list(seq)
+        if fname == "collect" and ret_t.split("<")[0] in self.lib.adts and isinstance(a0, (Iter, list)):
+            # a local `impl FromIterator<..> for T`
+            pref = "<%s as core::iter::traits::collect::FromIterator<" % ret_t.split("<")[0]
+            cands = [f for k, f in self.lib.fns.items() if k.startswith(pref) and k.endswith(">::from_iter") and thir.body_of(f)]
+            if cands:
+                want = None
+                seq = a0.rest() if isinstance(a0, Iter) else a0
+                if len(cands) > 1 and seq:
+                    x0 = seq[0]
+                    for f in cands:
+                        if isinstance(x0, (Struct, Enum)) and x0.adt in f["path"]:
+                            want = f
+                return self.call_fn(want or cands[0], [a0 if isinstance(a0, Iter) else Iter(a0)], depth + 1)
         if fname in ("collect", "from_iter") and ret_t.startswith(("core::result::Result<", "core::option::Option<")):
             seq = a0.rest() if isinstance(a0, Iter) else a0
             if isinstance(seq, list) and all(isinstance(x, Enum) and x.adt in (RESULT, OPTION) for x in seq):
